@@ -46,5 +46,14 @@ CHECKS["C14"] = dict(
     note=_TB + _KRY + "; each path seed is also run on the real float code and any discrepancy is replayed (catches rounding-level defects)",
     technique="concolic symbolic execution of the Python source on exact rational-function terms; z3 decides path feasibility, branch flips and "
               "path-coverage completeness; float replay of every path seed")
-for _p in ["C04","C05","C06","C07","C09","C10","C11","C12","C13","C15","C16","C17","C18","C19"]:
+CHECKS["C15"] = dict(
+    text="the real arnoldi / arnoldi_fact / arnoldi_eigs / Arnoldi() executed on Krylov-parametrised inputs A = Q H Q^H (symbolic Hessenberg H with "
+         "positive sub-diagonal, real and complex), v = s Q e1, symbolic tolerance: on every path the zero-padded Q, H equal the parameters "
+         "truncated at the number of steps (Arnoldi relation, orthonormality, Hessenberg structure, non-negative sub-diagonal, zero padding "
+         "for max_iters > n, stop at breakdown, steps <= min(max_iters, n)); batched start vectors with equal and different Krylov "
+         "dimensions; arnoldi_eigs returns exactly the spectrum for n = 2 also with max_iters > n",
+    note=_TB + _KRY + "; well-scaled inputs (sub-diagonal >= tol/2) are assumed, the tiny-scale behaviour is a recorded finding; Householder variant outside",
+    technique="concolic symbolic execution of the Python source on exact rational-function terms; z3 decides path feasibility, branch flips, "
+              "assumption seeds and path-coverage completeness; float replay of every path seed")
+for _p in ["C04","C05","C06","C07","C09","C10","C11","C12","C13","C16","C17","C18","C19"]:
     NA[_p] = "check under construction in this session (not yet registered); see DESIGN.md section 5 for the plan"
